@@ -86,6 +86,27 @@ func genSearchScenario(rng *rand.Rand, profile string, thorough bool) *SearchSce
 	g := root.Game()
 
 	switch profile {
+	case "tiny":
+		// a long random walk searched shallowly at every ply on a table of one to
+		// eight buckets: signature collisions hand the search moves that belong
+		// to other positions thousands of times per run
+		sc.TTBytes = pick(rng, []int{32, 32, 64, 128, 256})
+		sc.Style = "carry"
+		n := 150 + rng.IntN(250)
+		for i := 0; i < n; i++ {
+			l := g.Cur().Legal()
+			if len(l) == 0 || len(g.FinalReasons()) > 0 {
+				break
+			}
+			m := pick(rng, l)
+			st := SearchStep{Req: Request{Limits: Limits{Nodes: -1, Depth: pick(rng, []int{1, 1, 1, 2, 2, 3})}, StopAtPoll: -1}, Play: m.String()}
+			if rng.IntN(16) == 0 {
+				st.Req.Nodes = rng.IntN(60)
+			}
+			g.Push(m)
+			sc.Steps = append(sc.Steps, st)
+		}
+		return sc
 	case "c07game":
 		// long self-played games on one engine with ordinary searches: the
 		// variations reported late in a game depend on table and history state
@@ -128,6 +149,7 @@ func genSearchScenario(rng *rand.Rand, profile string, thorough bool) *SearchSce
 			n = 270 // generation counter wrap
 		}
 		selfplay := rng.IntN(3) != 0
+		noCounters := rng.IntN(3) == 0 // the whole game is played the way the UCI driver calls the search
 		for i := 0; i < n; i++ {
 			st := SearchStep{Req: Request{Limits: Limits{Nodes: -1}, StopAtPoll: -1, Output: true}}
 			switch rng.IntN(5) {
@@ -159,6 +181,7 @@ func genSearchScenario(rng *rand.Rand, profile string, thorough bool) *SearchSce
 				st.TwinSched = append(st.TwinSched, Sched{Quanta: []Quantum{{Polls: 1 + rng.IntN(400), CostUS: int64(rng.IntN(5000))}}})
 			}
 			st.Req.Debug = rng.IntN(6) == 0
+			st.Req.NoCounters = noCounters
 			if rng.IntN(12) == 0 {
 				st.Clear = true
 			}
@@ -182,6 +205,36 @@ func genSearchScenario(rng *rand.Rand, profile string, thorough bool) *SearchSce
 			sc.Steps = append(sc.Steps, st)
 		}
 		return sc
+	}
+
+	// c06 / c07: a game that walks into a repetition (or across the fifty-move
+	// boundary) with the engine searching every position on the way, so that
+	// its tables already know the placement when the root becomes final
+	if rng.IntN(8) == 0 {
+		sc.TTBytes = pick(rng, ttSizesOut)
+		base := genRoot(rng, pick(rng, []string{"bench", "start-play", "endgame", "fifty", "curated-play"}))
+		sc.StartFEN, sc.Prefix = base.FEN, base.Moves
+		g2 := base.Game()
+		before := len(g2.Moves)
+		if shuffle(rng, g2, 8+rng.IntN(3)) > 0 {
+			for _, m := range g2.Moves[before:] {
+				st := SearchStep{Req: Request{Limits: Limits{Nodes: -1, Depth: 1 + rng.IntN(5)}, StopAtPoll: -1, Output: true}, Play: m.String()}
+				if rng.IntN(3) == 0 {
+					st.Req.Limits = Limits{Nodes: -1, SoftNodes: pick(rng, []int{200, 2000})}
+				}
+				sc.Steps = append(sc.Steps, st)
+			}
+			// the last root is searched twice: to completion and under a sweep
+			last := SearchStep{Req: Request{Limits: Limits{Nodes: -1, Depth: 1 + rng.IntN(6)}, StopAtPoll: -1, Output: true}, Play: "", Research: true}
+			sc.Steps = append(sc.Steps, last)
+			if rng.IntN(2) == 0 {
+				sw := last
+				sw.Sweep = &Sweep{Kind: pick(rng, []string{"nodes", "stop"}), All: true, Max: 200}
+				sc.Steps = append(sc.Steps, sw)
+			}
+			return sc
+		}
+		sc.StartFEN, sc.Prefix = root.FEN, root.Moves
 	}
 
 	// c06 / c07: abort-point exploration
